@@ -66,6 +66,21 @@ CHECKS = {
               "one-at-a-time loop of the same code; one lane is perturbed and the others must stay bit-identical; every float constructor argument, dt "
               "and the last non-zero entry of every coefficient tuple is swept under eqx.filter_vmap against eagerly built steppers."),
         note="TLC, dump parser; the numeric oracle for real steppers is the code's own eager evaluation (metamorphic relation), tolerance 1e-9 x scale; one (D, N) per class; dealiasing_fraction / circle_radius treated as static configuration"),
+    "C07": dict(
+        category="model_checking", design_ref="4/C07", engine="diff",
+        technique="TLC machine of exact directional derivatives of the documented nonlinear terms (MC_Diff: five-point stencil in Q(i) on sparse spectra; linearity, polarisation, Euler, band invariants) replayed into jax.jvp/vjp of the real nonlinear functions + symbol-table derivatives of linear steppers (state, dt, every coefficient; forward, reverse, Jacobian) + tangent-linear ETDRK step assembled from the specification's tableau against jax.jvp of every public stepper + central differences of the primal code for dt / coefficients / rollouts / guarded states",
+        text=("MC_Diff computes, for every documented nonlinear term with its dealiasing, the exact directional derivative at sums of real basis functions "
+              "in the direction of every basis function (the map is a polynomial of degree <= 3, so the five-point stencil on the line u + s v is exact; "
+              "TLC checks linearity in the tangent, the central-difference form for quadratic maps, Euler's identity for homogeneous terms, reality and "
+              "band confinement). Every terminal state is replayed against jax.jvp of the real nonlinear-function objects in physical space and the "
+              "reverse mode against the forward mode. For linear steppers the TLC symbol tables give the Jacobian (the map itself), the adjoint "
+              "(conjugate symbol), d/d(dt) and d/d(coefficient) in closed form, replayed with jvp, vjp, grad, jacfwd and jacrev. For every public "
+              "semi-linear class x order the tangent-linear ETDRK step is assembled from the specification's tableau (mpmath) and the exact stencil "
+              "derivative of the stepper's own nonlinear function (recorded primal evaluations) and compared with jax.jvp; d/d(dt), every coefficient "
+              "(at its default, including exactly vanishing ones, and at configurations where an eigenvalue vanishes and the nonlinear term feeds that "
+              "mode), rollouts, the zero and constant states and the Wave / Leray guards are compared with 6th-order central differences of the primal "
+              "code in float64, and reverse mode with forward mode."),
+        note="the specification models the maps, not JAX's AD: establishes correct derivatives of the built-in maps only (not of user-defined nonlinear functions); central differences of the code's own primal evaluation decide the dt/coefficient/rollout clauses (the property's own criterion), tolerance 5e-7..5e-8 relative; model-derived oracles 1e-8..1e-9"),
     "C08": dict(
         category="model_checking", design_ref="4/C08", engine="nonlin",
         technique="TLC invariants ShiftOK/PermOK/VortSwapOK/EmbedOK on the exact sparse-spectrum machine (MC_Nonlin) + metamorphic replay of TLC-enumerated group elements on every public stepper",
@@ -265,6 +280,8 @@ def main():
              "kind_free_text": "TLC program-shape machine + spec->code replay (integer-exact and metamorphic)"},
             {"name": "dtype", "path": "spec/MC_Dtype.tla harness/checks/c19.py harness/checks/c19_child.py", "serves_properties": ["C19"],
              "kind_free_text": "TLC dtype pipeline + two-session replay against an exact pivot"},
+            {"name": "diff", "path": "spec/MC_Diff.tla harness/checks/c07.py", "serves_properties": ["C07"],
+             "kind_free_text": "TLC exact derivative tables + replay into JAX AD"},
             {"name": "rollout", "path": "spec/MC_Rollout.tla spec/Trace_Rollout.tla harness/checks/c14.py", "serves_properties": ["C14"],
              "kind_free_text": "TLC state machine + replay + trace validation"},
         ],
